@@ -79,13 +79,15 @@ func (fv *FnV) subAddr(st types.Type, field string, ref string) string {
 		fv.g.reg.add(fmt.Sprintf("(declare-fun %s (Ref) Ref)", inv), inv)
 		fv.g.subIDs[fn] = id
 	}
-	t := fv.c.Define("sub", sRef, app(fn, ref))
-	inv := quoteSym("subinv!" + structName(st) + "!" + field)
-	fact := and(eq(app(inv, t), ref), eq(app("rtag", t), fmt.Sprint(fv.g.subIDs[fn])), eq(app("birth", t), app("birth", ref)), not(eq(t, "nil!ref")))
-	if t == app(fn, ref) {
+	t := app(fn, ref)
+	if fv.subSeen == nil {
+		fv.subSeen = map[string]bool{}
+	}
+	if !fv.subSeen[t] {
+		fv.subSeen[t] = true
+		inv := quoteSym("subinv!" + structName(st) + "!" + field)
+		fact := and(eq(app(inv, t), ref), eq(app("rtag", t), fmt.Sprint(fv.g.subIDs[fn])), eq(app("birth", t), app("birth", ref)), not(eq(t, "nil!ref")))
 		fv.c.AddFact("", fact)
-	} else {
-		fv.c.AddFact(t, fact)
 	}
 	return t
 }
@@ -360,6 +362,30 @@ func (fv *FnV) doInstr(st *State, ins ssa.Instruction) error {
 		mt := ins.Map.Type().Underlying().(*types.Map)
 		m := fv.val(ins.Map).v.T
 		fv.safety(st, "mapstore", not(eq(m, "nil!ref")), ins.Pos())
+		fv.guardedAccess(st, ins.Map, ins.Pos(), "write")
+		if fv.k != nil {
+			site := fv.siteText(ins.Pos(), "mapstore")
+			var cls []*Clause
+			for key, list := range fv.k.CallAsserts {
+				if key == "mapstore" || (strings.HasPrefix(key, "mapstore:") && strings.Contains(site, strings.TrimPrefix(key, "mapstore:"))) {
+					cls = append(cls, list...)
+				}
+			}
+			for _, cl := range cls {
+				env := fv.contractEnv(st, fv.entry, nil)
+				if li := fv.innermostLoop(); li != nil {
+					env.loop = li
+				}
+				env.vars["stored"] = CVal{T: fv.term(fv.val(ins.Value)), S: fv.g.sortOf(mt.Elem()), Typ: mt.Elem()}
+				env.vars["key"] = CVal{T: fv.term(fv.val(ins.Key)), S: fv.g.sortOf(mt.Key()), Typ: mt.Key()}
+				env.vars["target"] = CVal{T: m, S: sRef, Typ: ins.Map.Type()}
+				t, err := env.evalBool(cl.Text)
+				if err != nil {
+					return fmt.Errorf("%s: at-call mapstore assert %s: %v", fv.name, cl.Label, err)
+				}
+				fv.emit(st, "A", "mapstore."+cl.Label+":"+fv.siteText(ins.Pos(), "mapstore"), cl.Props, t, "holds for the map entry stored here: "+cl.Text, ins.Pos())
+			}
+		}
 		fv.mapStore(st, mt, m, fv.term(fv.val(ins.Key)), fv.term(fv.val(ins.Value)), ins.Pos())
 	case *ssa.Range:
 		fv.vals[ins] = &SV{v: fv.val(ins.X).v, typ: ins.X.Type()}
@@ -379,6 +405,9 @@ func (fv *FnV) doInstr(st *State, ins ssa.Instruction) error {
 		for i := len(fv.defers) - 1; i >= 0; i-- {
 			d := fv.defers[i]
 			if !d.Block().Dominates(ins.Block()) {
+				if !blockReaches(d.Block(), ins.Block()) {
+					continue // registered on other paths only
+				}
 				panic(unsupported("conditionally registered defer"))
 			}
 			if _, err := fv.doCall(st, d, d.Common(), d.Pos()); err != nil {
@@ -870,6 +899,11 @@ func (fv *FnV) loopHead(li *loopInfo, st *State) error {
 		t := a(fv)
 		fv.emit(st, "I", fmt.Sprintf("loop%d.auto%d.establish", li.ordinal, i), fv.safetyProps(), t, "structural range-loop invariant holds on entry", b.Instrs[0].Pos())
 	}
+	if fv.k != nil {
+		if cl := fv.k.RangeOver[li.ordinal]; cl != nil {
+			fv.rangeForm(li, cl)
+		}
+	}
 	li.entrySt = st.clone()
 	// 2. havoc
 	for _, ins := range b.Instrs {
@@ -1008,4 +1042,98 @@ func (fv *FnV) autoInvariants(li *loopInfo) []func(*FnV) string {
 		})
 	}
 	return out
+}
+
+// rangeForm: the loop is a `for ... range X` over the slice named in the clause, i.e. it visits positions 0, 1, 2, ... in that order.
+func (fv *FnV) rangeForm(li *loopInfo, cl *Clause) {
+	want := strings.TrimSpace(cl.Text)
+	ok := false
+	why := "the loop is not a range loop over a slice"
+	for _, ins := range li.header.Instrs {
+		phi, isPhi := ins.(*ssa.Phi)
+		if !isPhi || phi.Comment != "rangeindex" {
+			continue
+		}
+		// entry value -1, step +1, bound len(X)
+		why = "the range loop does not iterate over `" + want + "`"
+		for _, x := range li.header.Instrs {
+			b, isB := x.(*ssa.BinOp)
+			if !isB || b.Op != token.LSS {
+				continue
+			}
+			if c, isC := b.Y.(*ssa.Call); isC {
+				if bi, isBi := c.Common().Value.(*ssa.Builtin); isBi && bi.Name() == "len" {
+					if fv.valueNamed(c.Common().Args[0], want) {
+						ok = true
+					}
+				}
+			}
+		}
+	}
+	goal := "false"
+	if ok {
+		goal = "true"
+	}
+	o := fv.emit(nil, "O", fmt.Sprintf("loop%d.%s", li.ordinal, cl.Label), cl.Props, goal, "loop is `for ... range "+want+"` (ascending positions 0..len-1)", li.header.Instrs[0].Pos())
+	if !ok {
+		o.Static = "fails: " + why
+		o.Script = ""
+	}
+}
+
+// valueNamed: v is the value of the source-level variable or selector expression `name` (e.g. current, expr.Exprs, *slice).
+func (fv *FnV) valueNamed(v ssa.Value, name string) bool {
+	if p, ok := v.(*ssa.Parameter); ok && p.Name() == name {
+		return true
+	}
+	for _, d := range fv.localNames[strings.TrimPrefix(name, "*")] {
+		if d.X == v {
+			return true
+		}
+		if u, ok := v.(*ssa.UnOp); ok && u.X == d.X {
+			return true
+		}
+	}
+	// x.f : load of a field address
+	if i := strings.LastIndex(name, "."); i > 0 {
+		if u, ok := v.(*ssa.UnOp); ok {
+			if fa, ok := u.X.(*ssa.FieldAddr); ok {
+				st := fa.X.Type().Underlying().(*types.Pointer).Elem().Underlying().(*types.Struct)
+				if st.Field(fa.Field).Name() == name[i+1:] {
+					return fv.valueNamed(fa.X, name[:i]) || fv.ptrNamed(fa.X, name[:i])
+				}
+			}
+		}
+	}
+	return false
+}
+
+func (fv *FnV) ptrNamed(v ssa.Value, name string) bool {
+	if p, ok := v.(*ssa.Parameter); ok && p.Name() == name {
+		return true
+	}
+	for _, d := range fv.localNames[name] {
+		if d.X == v {
+			return true
+		}
+	}
+	return false
+}
+
+func blockReaches(from, to *ssa.BasicBlock) bool {
+	seen := map[*ssa.BasicBlock]bool{}
+	stack := []*ssa.BasicBlock{from}
+	for len(stack) > 0 {
+		b := stack[len(stack)-1]
+		stack = stack[:len(stack)-1]
+		if b == to {
+			return true
+		}
+		if seen[b] {
+			continue
+		}
+		seen[b] = true
+		stack = append(stack, b.Succs...)
+	}
+	return false
 }
